@@ -3,7 +3,7 @@ flag-bit abstract interpretation (BITS) over vdrv bodies."""
 import re
 
 from .cfg import cfg_of, raw_edges
-from .facts import Operand, Place
+from .facts import FE, Operand, Place, hint_of
 
 # ---------------------------------------------------------------------------------------
 # identity table: callees that return (a view of / a wrapper around) one of their arguments
@@ -66,6 +66,16 @@ MAP_LIKE = {
     "std::option::Option::<T>::and_then": ("0", None),  # closure returns the Option itself
     "std::result::Result::<T, E>::and_then": ("0", None),
 }
+
+# variant hints across identity callees: (callee, variant of the result) -> variant of the argument
+HINT_MAP = {
+    ("std::ops::Try::branch", "Continue"): "Ok",
+    ("std::option::Option::<T>::ok_or_else", "Ok"): "Some",
+    ("std::option::Option::<T>::ok_or", "Ok"): "Some",
+}
+HINT_KEEP = {"std::result::Result::<T, E>::map_err", "std::result::Result::<T, E>::as_ref", "std::option::Option::<T>::as_ref",
+             "std::option::Option::<T>::as_mut", "error::ErrorExt::wrap", "error::ErrorExt::with_wrap", "std::clone::Clone::clone",
+             "std::option::Option::<T>::take", "std::mem::replace"}
 
 IDENTITY_RX = [
     (re.compile(r"^<.* as std::convert::From<.*>>::from$"), (0, "same")),
@@ -324,7 +334,7 @@ class Tracer:
             (bd, b, i, local, fp) = work.pop()
             du = defuse(bd)
             for site in du.defs_at(local, b, i):
-                k = (bd.path, site, local, fp)
+                k = (bd.path, site, local, fp, tuple(hint_of(e) for e in fp))
                 if k in seen:
                     continue
                 seen.add(k)
@@ -383,6 +393,8 @@ class Tracer:
                 if fp2:
                     f0 = fp2[0]
                     idx = None
+                    if ak == "adt" and hint_of(f0) is not None and rv.get("variant") is not None and rv["variant"] != hint_of(f0):
+                        return []    # a value of another variant cannot be what `(x as Variant).field` reads
                     if ak == "adt":
                         names = rv.get("fields", [])
                         if f0 in names:
@@ -441,6 +453,10 @@ class Tracer:
             if ident is not None and len(t.args) > ident[0]:
                 ai, mode = ident
                 fp2 = fp
+                if fp2 and hint_of(fp2[0]) is not None:
+                    h = hint_of(fp2[0])
+                    nh = HINT_MAP.get((t.callee, h), h if t.callee in HINT_KEEP else None)
+                    fp2 = ((FE(str(fp2[0]), nh) if nh else str(fp2[0])),) + tuple(fp2[1:])
                 if mode == "wrap" and fp2 and fp2[0] == "0":
                     fp2 = fp2[1:]
                 return self._op_next(bd, bb, n, t.args[ai], fp2)
